@@ -68,6 +68,42 @@ func genC10(tier string, rng *Rng) {
 		cs := ConnScript{Items: []Item{ackItem(), good(3), {Kind: "raw", Data: Lit(hdr(v))}, good(77)}, Segs: []SegCut{{0, 6}, {60, gl}, {150, 4 + gl}}, End: "none"}
 		add("over-limit-mem", 650, true, cs)
 	}
+	// ---- over-limit prefixes that LOOK like something: four bytes of text (the start of an ASCII line, blanks,
+	// line ends, digits), four identical bytes, a prefix that is a valid small frame when read big-endian; each
+	// followed by more text / frames that must not be delivered (seed C10-13: an all-printable prefix made the
+	// client "fall back" to ASCII mode and deliver the rest of the stream as lines)
+	for _, h4 := range []string{"HWC#", "list", "ping", "    ", "\r\n\r\n", "1234", "map=", "~~~~", "\x00\x00\x00\x7f", "\x7f\x7f\x7f\x7f", "ack\n", "{\"HW"} {
+		tail := "12=Down\nHWC#13=Up\nlist\nping\n"
+		cs := ConnScript{Items: []Item{ackItem(), good(3), {Kind: "raw", Data: Lit([]byte(h4 + tail))}, good(77)}, Segs: []SegCut{{0, 6}, {60, gl}, {300, 4 + len(tail) + gl}}, End: "none"}
+		add("over-limit-text", 1900, false, cs, goodConn(1, 2))
+	}
+	// ---- the panel does not stop talking after the fault: junk every 10-40 ms for 3 s behind an over-limit
+	// prefix / behind the start of a frame that then stalls forever is impossible (it would complete it), so:
+	// behind an over-limit prefix, and behind a frame whose length says 400000 and whose payload dribbles in
+	// too slowly to complete within 2 s.  The drop must be as prompt as ever (seed C10-14: the teardown drained
+	// the socket "until it is quiet for 100 ms" before closing it)
+	for _, kind := range []string{"over", "slow-payload"} {
+		cs := ConnScript{Items: []Item{ackItem(), good(3)}, Segs: []SegCut{{0, 6}, {60, gl}}, End: "none"}
+		junk := make([]byte, 200)
+		for i := range junk {
+			junk[i] = byte(0x80 + i%50)
+		}
+		dropAt := 300
+		if kind == "over" {
+			cs.Items = append(cs.Items, Item{Kind: "raw", Data: Lit(hdr(500000))})
+			cs.Segs = append(cs.Segs, SegCut{300, 4})
+		} else {
+			cs.Items = append(cs.Items, Item{Kind: "raw", Data: Lit(hdr(400000))})
+			cs.Segs = append(cs.Segs, SegCut{300, 4})
+			dropAt = 2300
+		}
+		for t := 320; t < dropAt+3000; t += 10 + (t/10)%4*10 {
+			cs.Items = append(cs.Items, Item{Kind: "raw", Data: Lit(junk)})
+			cs.Segs = append(cs.Segs, SegCut{t, len(junk)})
+		}
+		// drop at dropAt, reconnect 1 s later, service there, cancel
+		add("talks-on-after-fault-"+kind, dropAt+1000+700, false, cs, goodConn(1, 2))
+	}
 	// ---- the fault coincides with OUTBOUND back-pressure: the panel has stopped reading, the
 	// application keeps handing in large states (the writer goroutine is blocked inside conn.Write);
 	// then an over-limit prefix / a frame that stalls in its payload arrives.  The connection must be
